@@ -282,4 +282,13 @@ def load (bs : Bytes) : Except Err Val :=
   | .error e => .error e
   | .ok (v, _) => .ok v
 
+
+/-- calls a `_load_*` body may make: they cannot import, execute, or look attributes up on loaded data (builtins by name,
+methods as `.name`; `_load` is the recursive descent).  Hand-written here; `Gen.loaderCalls` (read from the source) is
+checked against it in `Props/C04.lean`. -/
+def loaderCallsAllowed : List String :=
+  ["_load", "abs", "bool", "bytes", "complex", "divmod", "enumerate", "float", "frozenset", "int", "isinstance", "iter",
+   "len", "max", "min", "next", "range", "reversed", "slice", "tuple", "type", "zip",
+   ".append", ".decode", ".from_bytes", ".get", ".join", ".read", ".unpack", ".unpack_from"]
+
 end Rpyc.Brine
